@@ -51,6 +51,9 @@ func SQLiteDSN(filename string, fileScheme, memory bool) string {
 		"_busy_timeout": []string{"10000"},
 		// we need BEGIN IMMEDIATE for several use cases to work
 		"_txlock": []string{"immediate"},
+		// LIKE is used for name prefix matching (List*), which must be case
+		// sensitive as it is in PostgreSQL
+		"_cslike": []string{"true"},
 	}
 	if memory {
 		// memory mode needs either shared cache, or single connection. shared cache
